@@ -110,6 +110,8 @@ func rprop_dense_with_gradient(evalGradient DenseGradientF, x0 DenseFloat64Vecto
         break
       }
     }
+    // accept the new position
+    copy(x1, x2)
     // evaluate stop criterion
     if (Norm(gradient_new) < epsilon.Value) {
       break;
@@ -125,7 +127,6 @@ func rprop_dense_with_gradient(evalGradient DenseGradientF, x0 DenseFloat64Vecto
         }
       }
     }
-    copy(x1, x2)
   }
   return x1, nil
 }
